@@ -22,10 +22,37 @@ type verifStringerNode struct {
 
 func (n *verifStringerNode) String() string { return "stringer-" + strconv.Itoa(n.id) }
 
+// verifPlainNode has no String method; it is used by value and through pointers (the way
+// lib/store/cache registers its nodes).
+type verifPlainNode struct {
+	Addr string
+	Zone int
+}
+
+// verifValStringer has a value receiver: both V and *V are Stringers.
+type verifValStringer struct {
+	id int
+}
+
+func (v verifValStringer) String() string { return "vs-" + strconv.Itoa(v.id) }
+
+// verifNilSafeStringer answers for a nil receiver.
+type verifNilSafeStringer struct {
+	id int
+}
+
+func (n *verifNilSafeStringer) String() string {
+	if n == nil {
+		return "nil-safe"
+	}
+	return "safe-" + strconv.Itoa(n.id)
+}
+
 type verifOp struct {
-	Op   string `json:"op"` // add | addw | addr | remove
-	Node int    `json:"node"`
-	Arg  int    `json:"arg"`
+	Op    string `json:"op"` // add | addw | addr | remove
+	Node  int    `json:"node"`
+	Arg   int    `json:"arg"`
+	Fresh bool   `json:"fresh"` // pointer kinds: pass a newly allocated, equal value instead of the first one
 }
 
 type verifHashCase struct {
@@ -33,28 +60,132 @@ type verifHashCase struct {
 	Data []string `json:"data"` // hex
 }
 
-type verifCase struct {
-	Replicas int       `json:"replicas"`
-	Ops      []verifOp `json:"ops"`
-	Probes   []string  `json:"probes"`
-	Custom   bool      `json:"custom"`
+// verifKey describes a probe key as a Go value: K = kind, S / I = its content.
+type verifKey struct {
+	K string `json:"k"`
+	S string `json:"s"`
+	I int    `json:"i"`
 }
 
-func verifNode(cache map[int]any, id int) any {
-	if v, ok := cache[id]; ok {
-		return v
+type verifCase struct {
+	Replicas int               `json:"replicas"`
+	Ops      []verifOp         `json:"ops"`
+	Probes   []json.RawMessage `json:"probes"` // a JSON string (string key) or a verifKey object
+	Custom   bool              `json:"custom"`
+	Kinds    []string          `json:"kinds"` // node id -> kind; absent: string/struct/stringer by id mod 3
+}
+
+func verifNodeKind(kinds []string, id int) string {
+	if id < len(kinds) {
+		return kinds[id]
 	}
-	var v any
-	switch id % 3 {
-	case 0:
-		v = "node-" + strconv.Itoa(id)
-	case 1:
-		v = verifStructNode{ID: id}
-	default:
-		v = &verifStringerNode{id: id}
+	return [3]string{"string", "struct", "stringer"}[id%3]
+}
+
+// verifMakeNode builds the Go value for node id of the given kind (distinct ids and kinds give distinct
+// representations).
+func verifMakeNode(kind string, id int) any {
+	switch kind {
+	case "string":
+		return "node-" + strconv.Itoa(id)
+	case "struct":
+		return verifStructNode{ID: id}
+	case "stringer":
+		return &verifStringerNode{id: id}
+	case "pstruct":
+		return &verifPlainNode{Addr: "10.0.0." + strconv.Itoa(id) + ":6379", Zone: id % 3}
+	case "plain":
+		return verifPlainNode{Addr: "plain-" + strconv.Itoa(id) + ":80", Zone: id}
+	case "pstr":
+		s := "pnode-" + strconv.Itoa(id)
+		return &s
+	case "int":
+		return 1000 + id
+	case "pint":
+		i := 2000 + id
+		return &i
+	case "vstringer":
+		return verifValStringer{id: id}
+	case "pvstringer":
+		return &verifValStringer{id: 100 + id}
+	case "safestringer":
+		return &verifNilSafeStringer{id: id}
 	}
-	cache[id] = v
-	return v
+	panic("verif driver: unknown node kind " + kind)
+}
+
+func verifMakeKey(raw json.RawMessage) any {
+	var s string
+	if json.Unmarshal(raw, &s) == nil {
+		return s
+	}
+	var k verifKey
+	if err := json.Unmarshal(raw, &k); err != nil {
+		panic("verif driver: bad key " + string(raw))
+	}
+	switch k.K {
+	case "str":
+		return k.S
+	case "pstr":
+		s := k.S
+		return &s
+	case "bytes":
+		return []byte(k.S)
+	case "int":
+		return k.I
+	case "pint":
+		i := k.I
+		return &i
+	case "i64":
+		return int64(k.I)
+	case "u32":
+		return uint32(k.I)
+	case "bool":
+		return k.I != 0
+	case "pbool":
+		b := k.I != 0
+		return &b
+	case "nil":
+		return nil
+	case "nilpstr":
+		return (*string)(nil)
+	case "nilpint":
+		return (*int)(nil)
+	case "nilpstruct":
+		return (*verifPlainNode)(nil)
+	case "nilpstruct2":
+		return (*verifStructNode)(nil)
+	case "struct":
+		return verifStructNode{ID: k.I}
+	case "pstruct":
+		return &verifStructNode{ID: k.I}
+	case "plain":
+		return verifPlainNode{Addr: k.S, Zone: k.I}
+	case "pplain":
+		return &verifPlainNode{Addr: k.S, Zone: k.I}
+	case "stringer":
+		return &verifStringerNode{id: k.I}
+	case "vstringer":
+		return verifValStringer{id: k.I}
+	case "pvstringer":
+		return &verifValStringer{id: k.I}
+	case "safestringer":
+		return &verifNilSafeStringer{id: k.I}
+	case "nilsafestringer":
+		return (*verifNilSafeStringer)(nil)
+	}
+	panic("verif driver: unknown key kind " + k.K)
+}
+
+// verifTry runs f and reports whether it panicked.
+func verifTry(f func()) (panicked bool) {
+	defer func() {
+		if r := recover(); r != nil {
+			panicked = true
+		}
+	}()
+	f()
+	return false
 }
 
 // TestVerifDriver drives ConsistentHash with membership histories and probes every key after every
@@ -83,26 +214,43 @@ func TestVerifDriver(t *testing.T) {
 		} else {
 			h = NewConsistentHash()
 		}
-		nodes := map[int]any{}
-		ids := map[any]int{}
+		nodes := map[int]any{} // first value built for an id
+		ids := map[any]int{}   // every value handed to the ring (pointers by identity, values by equality)
+		keys := make([]any, len(c.Probes))
+		for i, raw := range c.Probes {
+			keys[i] = verifMakeKey(raw)
+		}
 		results := make([][]int, 0, len(c.Ops))
+		oppanic := make([]bool, 0, len(c.Ops))
 		for _, op := range c.Ops {
-			n := verifNode(nodes, op.Node)
-			ids[n] = op.Node
-			switch op.Op {
-			case "add":
-				h.Add(n)
-			case "addw":
-				h.AddWithWeight(n, op.Arg)
-			case "addr":
-				h.AddWithReplicas(n, op.Arg)
-			case "remove":
-				h.Remove(n)
+			kind := verifNodeKind(c.Kinds, op.Node)
+			n, seen := nodes[op.Node]
+			if !seen || op.Fresh {
+				n = verifMakeNode(kind, op.Node)
+				if !seen {
+					nodes[op.Node] = n
+				}
 			}
-			row := make([]int, len(c.Probes))
-			for i, k := range c.Probes {
-				got, ok := h.Get(k)
-				if !ok {
+			ids[n] = op.Node
+			oppanic = append(oppanic, verifTry(func() {
+				switch op.Op {
+				case "add":
+					h.Add(n)
+				case "addw":
+					h.AddWithWeight(n, op.Arg)
+				case "addr":
+					h.AddWithReplicas(n, op.Arg)
+				case "remove":
+					h.Remove(n)
+				}
+			}))
+			row := make([]int, len(keys))
+			for i, k := range keys {
+				var got any
+				var ok bool
+				if verifTry(func() { got, ok = h.Get(k) }) {
+					row[i] = -3 // Get panicked
+				} else if !ok {
 					row[i] = -1
 				} else if id, known := ids[got]; known {
 					row[i] = id
@@ -112,23 +260,43 @@ func TestVerifDriver(t *testing.T) {
 			}
 			results = append(results, row)
 		}
-		// tabulate the hash of every virtual node the history can have created, and of the probes
+		// tabulate the representation of every node and key and the hash of every virtual node the
+		// history can have created
 		table := map[string][]uint64{}
+		nrepr := map[string]any{}
 		for id, n := range nodes {
-			r := repr(n)
+			var r string
+			if verifTry(func() { r = repr(n) }) {
+				nrepr[strconv.Itoa(id)] = nil
+			} else {
+				nrepr[strconv.Itoa(id)] = r
+			}
 			hs := make([]uint64, h.replicas)
 			for i := 0; i < h.replicas; i++ {
 				hs[i] = Hash([]byte(r + strconv.Itoa(i)))
 			}
 			table[strconv.Itoa(id)] = hs
 		}
-		ph := make([]uint64, len(c.Probes))
-		ih := make([]uint64, len(c.Probes))
-		for i, k := range c.Probes {
-			ph[i] = Hash([]byte(repr(k)))
-			ih[i] = Hash([]byte(innerRepr(k)))
+		ph := make([]uint64, len(keys))
+		ih := make([]uint64, len(keys))
+		krepr := make([]any, len(keys))
+		for i, k := range keys {
+			var r string
+			if verifTry(func() { r = repr(k) }) {
+				krepr[i] = nil
+			} else {
+				krepr[i] = r
+			}
+			ph[i] = Hash([]byte(r))
+			switch k.(type) {
+			case string:
+				ih[i] = Hash([]byte(innerRepr(k)))
+			default:
+				// innerRepr prints pointers as addresses; it is only consulted on a ring-position collision
+				ih[i] = 0
+			}
 		}
 		return map[string]any{"replicas": h.replicas, "results": results, "vhash": table, "phash": ph, "ihash": ih,
-			"nkeys": len(h.keys), "nring": len(h.ring)}
+			"nkeys": len(h.keys), "nring": len(h.ring), "oppanic": oppanic, "nrepr": nrepr, "krepr": krepr}
 	})
 }
